@@ -12,7 +12,12 @@ Oracle on the real code (never uses the Lean model):
       (original elements, each once, in the translator's order);
   (4) every message id containing a letter that was looked up while rendering is among the
       messages `Translator.extract` reports for a fresh copy of the template.
-Correspondence: the same template streams are sent to the Lean model (`gdrv`) and compared.
+  (5) code: a generated Python expression / suite is evaluated by CPython with recording stand-ins
+      for the gettext functions; every call `f('literal', ...)` of the source (CPython's `ast`) that
+      evaluation performs is among what `extract_from_code` reports for genshi's `Code` object.
+Correspondence: the same template streams are sent to the Lean model (`gdrv`) and compared; stream
+`pycode`: the model's `extractFromCode` on the tree genshi built (`code.ast`) against
+`extract_from_code`.
 """
 import hashlib, json
 from harness import proto, gen_i18n as G
@@ -24,10 +29,13 @@ TRUSTED = [
     'modelled, not verified: genshi/filters/i18n.py (Translator.__call__/extract/_extract_attrs, MessageBuffer, parse_msg, MsgDirective, ChooseDirective and its branches: __call__ and extract) - hand-written Lean model tied by differential correspondence on generated template streams',
     'not modelled: the template engine around the filter (parsing, _flatten, expression evaluation, non-i18n directives are opaque in the model); `re` (the two regular expressions are re-implemented as list functions); str.strip/str.isalpha (character classes generated from the running interpreter); gettext',
     'the reference template construction in harness/gen_i18n.py (i18n markup removed, message contents rebuilt from the documented [n:...] / %(name)s format)',
+    'modelled, not verified: extract_from_code/_walk (Lean: extractFromCode over PyExpr, Genshi/Model/I18nPyExpr.lean), tied by the correspondence stream `pycode` on the syntax trees genshi builds (code.ast, converted generically by py_wire: calls, str/bytes constants, names; every other node by its AST children in _fields order)',
+    'not modelled: how genshi turns source text into code.ast (parsing, TemplateASTTransformer); covered only by the pycode oracle, which reads the call sites off CPython\'s own ast of the source text and evaluates the source with recording stand-ins (harness/gen_pycode.py)',
 ]
 ASSUMPTIONS = [
     'message directives are used as documented: one parameter name per expression, i18n:choose holds only white space besides its singular/plural branches, no directive *elements* (py:if ...) and no comments directly inside a message',
     'message text contains no backslash, no literal "[<digits>:" and no literal "%(name)s" (known findings C19-backslash, C19-placeholder-text, C19-percent)',
+    'template code: the Python 3.12 syntax tree (string and bytes literals are ast.Constant, a Call has no starargs/kwargs attributes); bytes literals passed to a gettext function are utf-8 (extract_from_code raises UnicodeDecodeError otherwise: the model answers unmodelled, the oracle leaves such sources alone)',
     'catalogues: identity, recording, letter-scrambling, sibling-placeholder permuting, dropping of text parts and of whole top-level placeholders; the catalogue object offers the full gettext API (without dgettext: known finding C19-domain-recursion)',
 ]
 
@@ -383,7 +391,7 @@ def valid_case(case):
     """is this a well-formed case (the shrinker also produces garbage): the tree has the node
     shapes of gen_i18n and its source parses as a template"""
     import re
-    expr_ok = re.compile(r"^(s[123]|f[12]|n[12]|l1|it|_\('\w+'\)|ngettext\('\w+', '\w+', n[12]\))$")
+    expr_ok = re.compile(r"^(s[123]|f[12]|n[12]|l1|it|_\('\w+'\)|ngettext\('\w+', '\w+', (n[12]|[12]|len\(_\('\w+'\)\))\))$")
 
     def ok_parts(ps):
         return isinstance(ps, list) and all(isinstance(p, list) and len(p) == 2 and p[0] in ('t', 'x')
@@ -837,6 +845,135 @@ def fresh_template(case):
     return tmpl, tr
 
 
+def model_branches(events, tr):
+    """which branches of the model (lean/Genshi/Model/I18n*.lean) a template stream selects:
+    keys for `res.dist` (`br:...`), computed from the stream the correspondence sends — the
+    directive lists of SUB events decide the paths through `reorderGo`, `subLoop1` (the loop that
+    pops under its own iterator) and `subLoop2`; the position inside an excluded element decides
+    the `skip + 1` clauses; the shape of a message / choose body decides the clauses of
+    `msgBuffer`, `msgExtract`, `branchExtract`, `chooseStep`"""
+    from genshi.core import START, END, TEXT, XML_NAMESPACE
+    from genshi.template.base import SUB, EXPR
+    from genshi.filters import i18n
+    from genshi.template.directives import StripDirective
+    xml_lang = XML_NAMESPACE['lang']
+    fs = set()
+
+    def kind(d):
+        for cls, k in ((i18n.DomainDirective, 'domain'), (i18n.CommentDirective, 'comment'), (i18n.ContextDirective, 'ctxt'),
+                       (i18n.MsgDirective, 'msg'), (i18n.ChooseDirective, 'choose'), (i18n.SingularDirective, 'singular'),
+                       (i18n.PluralDirective, 'plural')):
+            if isinstance(d, cls):
+                return k
+        if isinstance(d, StripDirective):
+            return 'strip'
+        return 'other'
+
+    def walk(evs, where):
+        skip = 0
+        for e in evs:
+            k, data = e[0], e[1]
+            if k is START:
+                tag, attrs = data
+                if skip:
+                    skip += 1
+                    fs.add('pass:start-while-skipping')
+                elif tag in tr.ignore_tags or isinstance(attrs.get(xml_lang), str):
+                    skip = 1
+                    fs.add('pass:excluded-' + ('tag' if tag in tr.ignore_tags else 'lang') + '@' + where)
+                for name, v in attrs:
+                    if isinstance(v, str):
+                        if name in tr.include_attrs:
+                            fs.add('attr:included-blank' if not v.strip() else 'attr:included-skipped' if skip else 'attr:included')
+                    else:
+                        fs.add('attr:interpolated' + ('-while-skipping' if skip else ''))
+            elif k is END:
+                if skip:
+                    skip -= 1
+            elif k is TEXT:
+                if not skip and where in ('singular', 'plural', 'msg-sub'):
+                    fs.add('text:fragment@' + where + (':letter' if has_letter(data.strip()) else ':noletter' if data.strip() else ':blank'))
+            elif k is SUB:
+                ds, body = data
+                ks = [kind(d) for d in ds]
+                fs.add('sub:' + '+'.join(ks))
+                if skip:
+                    fs.add('pass:sub-while-skipping')
+                # reorderGo: something is moved
+                front = [x for x in ks if x == 'domain'] + [x for x in ks if x == 'ctxt']
+                if front and ks[:len(front)] != front:
+                    fs.add('reorder:moves')
+                if 'domain' in ks and 'ctxt' in ks:
+                    fs.add('reorder:domain+ctxt')
+                # subLoop1: pops under the iterator
+                i = 0
+                cur = list(ks)
+                skipped = False
+                while i < len(cur):
+                    if cur[i] in ('comment', 'ctxt') or cur[i] in ('strip', 'other'):
+                        if cur[i] in ('comment', 'ctxt') and len(cur) == 1:
+                            fs.add('x1:%s-alone' % cur[i])
+                        cur.pop(i)
+                        if i < len(cur):
+                            skipped = True
+                    i += 1
+                if skipped:
+                    fs.add('x1:pop-skips-a-directive')
+                if not cur and not ('comment' in ks or 'ctxt' in ks):
+                    fs.add('x1:all-popped-plain-extract')
+                if [x for x in cur if x not in ('msg', 'choose')] and [x for x in cur if x in ('msg', 'choose')]:
+                    fs.add('x2:extra-extract-next-to-message')
+                body = list(body)
+                if 'msg' in ks:
+                    first_start = bool(body) and body[0][0] is START
+                    fs.add('msg:attr-form' if first_start else 'msg:elem-form')
+                    fs.add('msg:events=%s' % (len(body) if len(body) < 3 else '3+'))
+                    if any(x[0] is SUB for x in body):
+                        fs.add('msg:has-sub')
+                    if body and body[-1][0] is not END:
+                        fs.add('msg:last-not-end')
+                    if sum(1 for x in body if x[0] is EXPR) > len([d for d in ds if isinstance(d, i18n.MsgDirective)][0].params):
+                        fs.add('msg:more-exprs-than-params')
+                    walk(body, 'msg')
+                elif 'choose' in ks:
+                    first_start = bool(body) and body[0][0] is START
+                    fs.add('choose:attr-form' if first_start else 'choose:elem-form')
+                    inner = body[1:-1] if first_start else body
+                    for x in inner:
+                        if x[0] is SUB:
+                            xs = [kind(d) for d in x[1][0]]
+                            if 'singular' in xs or 'plural' in xs:
+                                b = list(x[1][1])
+                                fs.add('choose:branch-' + ('attr' if b and b[0][0] is START else 'elem') + '-form')
+                                if 'strip' in xs:
+                                    fs.add('choose:branch+strip')
+                                if [y for y in xs if y not in ('singular', 'plural', 'strip')]:
+                                    fs.add('choose:branch+other-directive')
+                            else:
+                                fs.add('choose:sub-outside-branches')
+                        elif x[0] is TEXT and x[1].strip():
+                            fs.add('choose:text-outside-branches')
+                    if body and body[-1][0] is SUB:
+                        fs.add('choose:last-event-is-branch')
+                    walk(body, 'choose')
+                else:
+                    w = where
+                    if 'singular' in ks:
+                        w = 'singular'
+                    elif 'plural' in ks:
+                        w = 'plural'
+                    elif where in ('msg', 'msg-sub', 'singular', 'plural'):
+                        w = 'msg-sub' if where in ('msg', 'msg-sub') else where
+                    walk(body, w)
+    walk(list(events), 'top')
+    return fs
+
+
+def MarkupTemplateCheck(case):
+    from genshi.template import MarkupTemplate
+    return MarkupTemplate(src(case)).stream
+
+
 def corr_lines(case, rng):
     """[(stream name, request line, real answer)] for one template case; every real call works on
     a fresh template because both passes edit the directive lists in place (C10)"""
@@ -851,6 +988,11 @@ def corr_lines(case, rng):
     w = Wire()
     stream = tmpl.stream
     wired = w.stream(stream)
+    case_branches = sorted(model_branches(stream, tr))
+    if frames:
+        case_branches.append('ctx:frames=' + '+'.join(k for k, _ in frames))
+    case_branches.append('pass:tt=%s,ta=%s' % (int(tt), int(ta)))
+    out.append(('branches', None, case_branches))
     cat = KeyedCatalogue(CATS[catkind])
     tr.translate = cat
     ctxt = Context()
@@ -976,15 +1118,37 @@ def rand_events(rng, w_unused=None):
                 evs.append((END, tags.pop(), pos))
             else:
                 evs.append((END, QName('b'), pos))
-        elif q < 0.96:
+        elif q < 0.94:
             evs.append((COMMENT, 'c', pos))
         else:
+            # directive-carrying sub-streams, also nested in each other (TypeError branch of
+            # MessageBuffer.translate: measured in 0.1 % of the cases before)
             inner = rand_events(rng)
             evs.append((SUB, ([StripDirective('', None)], inner), pos))
     if rng.random() < 0.7:
         while tags:
             evs.append((END, tags.pop(), pos))
     return evs
+
+
+def nested_sub_events(rng):
+    """directive-carrying elements inside each other (finding C19-nested-directives: the TypeError
+    branch of MessageBuffer.translate, hit by 0.1 % of `rand_events`)"""
+    from genshi.core import START, END, TEXT, QName, Attrs
+    from genshi.template.base import SUB
+    from genshi.template.directives import StripDirective
+    pos = (None, 1, 0)
+
+    def el(tag, kids):
+        return [(START, (QName(tag), Attrs()), pos)] + kids + [(END, QName(tag), pos)]
+
+    def sub(kids):
+        return [(SUB, ([StripDirective('', None)], kids), pos)]
+    t = lambda: [(TEXT, rng.choice(['a', 'x ', ' y', '12']), pos)] if rng.random() < 0.8 else []
+    inner = sub(el('i', t()))
+    if rng.random() < 0.3:
+        inner = el('em', t() + inner + t())
+    return t() + sub(el('b', t() + inner + t())) + t()
 
 
 def rand_translation(rng, fmt):
@@ -1022,7 +1186,7 @@ def buffer_lines(rng, n):
     out = []
     for _ in range(n):
         params = rng.choice([[], ['p1'], ['p1', 'p2'], ['p1', 'p2', 'q']])
-        evs = rand_events(rng)
+        evs = nested_sub_events(rng) if rng.random() < 0.04 else rand_events(rng)
         w = Wire()
         wired = w.stream(evs)
         fmt = None
@@ -1052,6 +1216,197 @@ def buffer_lines(rng, n):
     return out
 
 
+# --------------------------------------------------------------------------
+# `extract_from_code` on generated Python expressions / suites (stream `pycode`)
+
+def py_wire(node):
+    """a Python syntax tree as `_walk` of `extract_from_code` sees it -> wire value of the model's
+    `PyExpr`.  Generic: a call is ( PC func ( args ) ( keyword values ) ), string / bytes constants
+    and names are leaves, every other node is ( PX children ) with the children in `_fields` order
+    exactly as `_walk` enumerates them (list entries that are AST nodes, single AST children)."""
+    import ast
+    if isinstance(node, ast.Call):
+        if tuple(node._fields) != ('func', 'args', 'keywords') or \
+                not all(isinstance(k, ast.keyword) and tuple(k._fields) == ('arg', 'value') and isinstance(k.value, ast.AST)
+                        and not isinstance(k.arg, ast.AST) for k in node.keywords) or \
+                not all(isinstance(a, ast.AST) for a in node.args) or not isinstance(node.func, ast.AST):
+            raise ValueError('a Call node of a shape the model does not know: %s' % ast.dump(node)[:200])
+        return [Atom('PC'), py_wire(node.func), [py_wire(a) for a in node.args], [py_wire(k.value) for k in node.keywords]]
+    if isinstance(node, ast.Constant) and isinstance(node.value, str):
+        return [Atom('PS'), node.value]
+    if isinstance(node, ast.Constant) and isinstance(node.value, bytes):
+        try:
+            return [Atom('PB'), node.value.decode('utf-8')]
+        except UnicodeDecodeError:
+            return [Atom('PB'), proto.N]
+    if isinstance(node, ast.Name) and isinstance(node.id, str) and \
+            all(not getattr(getattr(node, f, None), '_fields', ()) for f in node._fields if isinstance(getattr(node, f, None), ast.AST)):
+        return [Atom('PN'), node.id]
+    children = []
+    for field in node._fields:
+        child = getattr(node, field, None)
+        if isinstance(child, list):
+            children.extend(e for e in child if isinstance(e, ast.AST))
+        elif isinstance(child, ast.AST):
+            children.append(child)
+    return [Atom('PX'), [py_wire(c) for c in children]]
+
+
+def _has_surrogate(x):
+    if isinstance(x, str):
+        return any(0xD800 <= ord(c) <= 0xDFFF for c in x)
+    if isinstance(x, list):
+        return any(_has_surrogate(y) for y in x)
+    return False
+
+
+ALT_GF = [('_', 'tr', 'len'), ('gettext',), (), ('N_', 'pgettext', '_', 'ngettext'), ('str', 'dict', 'sorted')]
+
+
+def pycode_compile(case):
+    """the `Code` object genshi builds for the case, or the class name of what it raised"""
+    from genshi.template.eval import Expression, Suite
+    try:
+        return (Expression if case['mode'] == 'expr' else Suite)(case['pycode']), None
+    except Exception as e:  # noqa
+        return None, errname(e)
+
+
+def pycode_oracle(case, res=None, code=None):
+    """the property on the real code, independent of the model: the source is evaluated by CPython
+    with recording stand-ins for the gettext functions; every (function, string) that was passed as
+    first positional argument AND is written as `function('string', ...)` in the source (CPython's
+    own `ast` of the source text) must be among what `extract_from_code` reports for the `Code`
+    object genshi compiled from the same source.  None = nothing to report."""
+    import ast, warnings
+    from harness import gen_pycode as P
+    from genshi.filters.i18n import extract_from_code, GETTEXT_FUNCTIONS
+    warnings.filterwarnings('ignore', category=SyntaxWarning)
+    if not isinstance(case, dict) or case.get('mode') not in ('expr', 'suite') or not isinstance(case.get('pycode'), str):
+        return None
+    gf = tuple(case['gf']) if isinstance(case.get('gf'), list) else tuple(GETTEXT_FUNCTIONS)
+    if not all(isinstance(f, str) for f in gf):
+        return None
+    try:
+        tree = ast.parse(case['pycode'], mode='eval' if case['mode'] == 'expr' else 'exec')
+    except (SyntaxError, ValueError, RecursionError, MemoryError):
+        return None
+    if not P.safe_to_evaluate(tree):
+        if res is not None:
+            res.count('pycode:oracle:not-evaluated(unsafe-or-outside-grammar)')
+        return None
+    if any(isinstance(n, ast.Constant) and isinstance(n.value, bytes) and not _utf8(n.value) for n in ast.walk(tree)):
+        # a bytes literal that is no utf-8: extract_from_code raises UnicodeDecodeError (outside the
+        # stated assumptions; reported in notes/C19.md)
+        if res is not None:
+            res.count('pycode:oracle:not-evaluated(undecodable-bytes)')
+        return None
+    if code is None:
+        code, err = pycode_compile(case)
+    if code is None:
+        return None
+    sites, under_star = P.literal_sites(tree, gf)
+    if res is not None and under_star:
+        res.count('pycode:oracle:literal-sites-under-star(not-demanded)', under_star)
+    log, everr = P.evaluate(case['pycode'], case['mode'], gf, P.NON_GETTEXT)
+    if res is not None:
+        res.count('pycode:oracle:evaluated')
+        res.count('pycode:oracle:calls-recorded', len(log))
+        if everr:
+            res.count('pycode:oracle:evaluation-raised')
+    required = sorted(set(r for r in log if r in sites))
+    if res is not None:
+        res.count('pycode:oracle:literal-calls-performed', len(required))
+    try:
+        found = list(extract_from_code(code, gf))
+        have = set()
+        for f, v in found:
+            if isinstance(v, tuple):
+                if v:
+                    have.add((f, v[0]))
+            else:
+                have.add((f, v))
+        observed = [[f, list(v) if isinstance(v, tuple) else v] for f, v in found]
+    except Exception as e:  # noqa
+        # extraction that raises reports nothing at all
+        return {'case': case, 'what': 'extract_from_code raises on code that genshi compiled (extraction reports nothing)',
+                'expected': 'a list of (function, strings)', 'observed': 'extract_from_code raised ' + errname(e)}
+    missing = [list(r) for r in required if r not in have]
+    if missing:
+        return {'case': case, 'what': 'a gettext call with a literal message that evaluating the code performs is not reported by extract_from_code',
+                'expected': missing, 'observed': _clip(observed)}
+    return None
+
+
+def _utf8(b):
+    try:
+        b.decode('utf-8')
+        return True
+    except UnicodeDecodeError:
+        return False
+
+
+def pycode_lines(rng, n, res=None):
+    """generated expressions and suites: the model's `extractFromCode` on the tree genshi built
+    (`code.ast`, converted generically) against `list(extract_from_code(code, gettext_functions))`;
+    the oracle `pycode_oracle` on each.  Returns (stream, line, real, case) tuples."""
+    import ast, warnings
+    from harness import gen_pycode as P
+    from genshi.filters.i18n import extract_from_code, GETTEXT_FUNCTIONS
+    warnings.filterwarnings('ignore', category=SyntaxWarning)      # `'a' is not 3`, `3[x]` ... in generated sources
+    if res is None:
+        res = Result()
+    out = []
+    for _ in range(n):
+        alt = rng.random() < 0.12
+        gf = rng.choice(ALT_GF) if alt else tuple(GETTEXT_FUNCTIONS)
+        undec = rng.random() < 0.04
+        g = P.PyGen(rng, gf or ('_',), undecodable=undec)
+        mode = 'expr' if rng.random() < 0.6 else 'suite'
+        src_ = g.expr(rng.choice([1, 2, 3, 3])) if mode == 'expr' else g.suite(rng.choice([1, 2, 2]))
+        case = {'pycode': src_, 'mode': mode}
+        if alt:
+            case['gf'] = list(gf)
+            res.count('pycode:other-gettext_functions')
+        res.count('pycode:cases')
+        res.count('pycode:mode:' + mode)
+        code, err = pycode_compile(case)
+        if code is None:
+            res.count('pycode:skipped:genshi-cannot-compile:' + err)
+            continue
+        try:
+            st = P.site_stats(ast.parse(src_, mode='eval' if mode == 'expr' else 'exec'), gf)
+        except SyntaxError:
+            st = {}
+        for k_, v_ in sorted(st.items()):
+            if v_:
+                res.count('pycode:source:' + k_, v_)
+        if st.get('sites'):
+            res.count('pycode:with-gettext-call')
+            res.count('pycode:with-gettext-call:' + mode)
+        f = pycode_oracle(case, res, code)
+        if f:
+            res.failures.append(f)
+        try:
+            real = [[fn, Wire.val(v)] for fn, v in extract_from_code(code, gf)]
+            res.count('pycode:reported', len(real))
+            res.count('pycode:reported:None-entries', sum(1 for _f, v in real for x in v[1:] if x is proto.N))
+            res.count('pycode:reported:empty-tuple', sum(1 for _f, v in real if v == [Atom('many')]))
+        except Exception as e:  # noqa
+            real = [Atom('err'), Atom(errname(e))]
+        try:
+            wired = py_wire(code.ast)
+        except Exception as e:  # noqa
+            res.disagreements.append({'stream': 'pycode', 'case': case, 'model': '', 'real': 'py_wire raised %s: %s' % (type(e).__name__, e)})
+            continue
+        if _has_surrogate(wired):
+            res.count('pycode:skipped:surrogate-in-literal')
+            continue
+        out.append(('pycode', proto.line(Atom('C19'), Atom('pycode'), list(gf), wired), real, case))
+    return out
+
+
+
 def compare(triples, res):
     lines = [t[1] for t in triples]
     answers = proto.run_lines(lines)
@@ -1060,6 +1415,9 @@ def compare(triples, res):
         origin = t[3] if len(t) > 3 else None
         if ans == 'unmodelled':
             res.count('model:unmodelled:' + stream)
+            if stream == 'pycode':
+                # the only trees the model does not cover hold a bytes literal that is no utf-8
+                res.count('pycode:unmodelled:real=%s' % (real[1] if real and real[0] == 'err' else 'answers'))
             continue
         try:
             model = proto.dec(ans)
@@ -1181,10 +1539,37 @@ def shard(arg):
             res.failures.append({'case': c, 'what': 'harness self-check: a generated case lies inside the stated hypotheses '
                                                     '(in_hypotheses disagrees with gen_i18n.Gen)', 'expected': True, 'observed': False})
         try:
-            triples.extend(t + (c,) for t in corr_lines(c, rng))
+            for t in corr_lines(c, rng):
+                if t[0] == 'branches':
+                    for b in t[2]:
+                        res.count('br:' + b)
+                else:
+                    triples.append(t + (c,))
+        except Exception as e:  # noqa
+            res.disagreements.append({'stream': 'harness', 'case': c, 'model': '', 'real': 'corr_lines raised %s: %s' % (type(e).__name__, e)})
+    # templates aimed at rarely reached model branches: correspondence only (many lie outside the
+    # hypotheses of the oracle); counted under `rare:` / `br:`
+    rrng = random.Random('%s/%s/C19/rare' % (seed, idx))
+    for _ in range(max(1, n // 8)):
+        c = G.gen_rare_case(rrng)
+        res.count('rare:cases')
+        try:
+            MarkupTemplateCheck(c)
+        except Exception as e:  # noqa
+            res.count('rare:unparsable:' + type(e).__name__)
+            continue
+        try:
+            for t in corr_lines(c, rrng):
+                if t[0] == 'branches':
+                    for b in t[2]:
+                        res.count('br:' + b)
+                        res.count('rare:br:' + b)
+                else:
+                    triples.append(t + (c,))
         except Exception as e:  # noqa
             res.disagreements.append({'stream': 'harness', 'case': c, 'model': '', 'real': 'corr_lines raised %s: %s' % (type(e).__name__, e)})
     triples.extend(buffer_lines(rng, 3 * n))
+    triples.extend(pycode_lines(random.Random('%s/%s/C19/pycode' % (seed, idx)), n, res))
     compare(triples, res)
     res.samples = cases[:2]
     return res
@@ -1212,6 +1597,13 @@ def search(ctx, res, broken):
     seen = set()
     for d in res.disagreements[:300]:
         c = d.get('case')
+        if isinstance(c, dict) and 'pycode' in c:
+            f = replay(ctx, c)
+            if f:
+                found.append(f)
+                if len(found) >= 5:
+                    return found
+            continue
         if not isinstance(c, dict) or 'tmpl' not in c:
             continue
         key = json.dumps(c.get('tmpl'), sort_keys=True)
@@ -1240,6 +1632,10 @@ def replay(ctx, case):
     """the oracle on one case; a case whose reference template does not render is not an input
     of the property (the shrinker produces such cases) - only the generation loop reports
     that as a harness self-check failure"""
+    if isinstance(case, dict) and 'pycode' in case:
+        # a Python expression / suite: the oracle of the `pycode` stream (it checks itself that the
+        # source is one it may evaluate)
+        return pycode_oracle(case)
     if not _recorded_input(case) and not (valid_case(case) and in_hypotheses(case)):
         return None
     f = oracle_case(case)
